@@ -567,13 +567,49 @@ def check_templates(model: Model, report: Report, rule: str) -> None:
             report.fail(rule, fn.qualname, f"template:{cname}", f"{cname} of $['a7'] renders as {describe(r)!r}, expected {want!r}", file=fn.file, line=fn.line)
 
 
+def check_number_writers(model: Model, report: Report, rule: str) -> None:
+    """Every spelling the literal writer can produce for an integer or a finite float (repr(value).lower(), whose
+    form R12.5 checks on samples) is a lexeme the library's own number-literal reader accepts."""
+    from ..automata import Alt, CharSet, Chars, Lang, Rep, Seq, lit, opt
+    from . import _lexrules
+
+    d = Chars(CharSet([(0x30, 0x39)]))
+    d19 = Chars(CharSet([(0x31, 0x39)]))
+    int_part = Alt(lit("0"), Seq(d19, Rep(d, 0, None)))
+    sign = opt(lit("-"))
+    w_int = Seq(sign, int_part)
+    w_fixed = Seq(sign, int_part, lit("."), Rep(d, 1, None))
+    # repr(float): exponent form only below 1e-4 and from 1e16: one non-zero digit, optional fraction, e-05.. or e+16..
+    big = Seq(d19, d, opt(d))
+    w_exp = Seq(sign, d19, opt(Seq(lit("."), Rep(d, 1, None))), lit("e"), Alt(Seq(lit("+"), big), Seq(lit("-"), Alt(Seq(lit("0"), Chars(CharSet([(0x35, 0x39)]))), big))))
+    writer = Alt(w_int, w_fixed, w_exp)
+    site = "parse.Parser.parse_float_literal"
+    try:
+        union, classes, why = _lexrules.number_literal_union(model, extra_rx=[writer])
+    except Unsupported as err:
+        union, classes, why = None, [], str(err)
+    if union is None:
+        report.undecided(rule, site, f"number literals: {why}")
+        return
+    W = Lang.from_rx(writer, classes).minimize()
+    # only strings of the writer language that the reader lacks: W \ union
+    bad = [dv for dv in W.product(union, "and").minimize().divergences(W) if dv.side == "b-only"]
+    if bad:
+        for dv in bad[:6]:
+            report.fail(rule, site, f"number-writer:{dv.key()}", f"the serializer can write the number literal {dv.witness!r} (repr of an int / finite float), which the library's own reader refuses: str(query) would not compile")
+    else:
+        report.ok(rule, site, "every spelling repr() gives an int or a finite float (fixed and zero-padded exponent forms) is accepted by the number-literal reader")
+
+
 def check(model: Model, report: Report) -> None:
+    report.rule("R12.6", "the number spellings the literal writer can produce (decimal integers; repr of a finite float: fixed, or mantissa e sign two-or-more digits) are all accepted by the library's own number-literal reader")
     report.rule("R12.1", "grouping: every expression tree over {query, comparison, !, &&, ||, function call} (depth <= 2, and as function arguments) is serialised to text that the RFC filter grammar parses back to the same tree (n-ary and/or)")
     report.rule("R12.2", "serializer precedence constants equal the parser's")
     report.rule("R12.3", "every expression, selector and segment class has a __str__")
     report.rule("R12.5", "templates of selectors, segments, query, literals and embedded queries are RFC lexemes ($, [a, b], ..[a], ?expr, start:stop:step, *, canonical strings, decimal integers, true/false/null)")
     report.assumptions += ["A2: repr(float) of a finite float is an RFC number and round-trips; canonical strings are covered by C08 R08.4/R08.5"]
     report.not_decided += ["semantic equality of the reparsed query on all documents (follows from equal trees + C01-C07; argued)", "non-finite floats (outside the exactly-representable range the property quantifies over)"]
+    check_number_writers(model, report, "R12.6")
     check_grouping(model, report, "R12.1")
     check_constants(model, report, "R12.2")
     check_str_methods(model, report, "R12.3")
